@@ -65,9 +65,10 @@ func build(v any) *node {
 		return &node{kind: "tag", tag: x.Number, kids: []*node{build(x.Content)}}
 	case []byte:
 		// embedded CBOR?
-		if len(x) > 1 && (x[0]>>5 == 4 || x[0]>>5 == 5) {
+		// embedded CBOR (proofs): only a map with text keys counts, so that random scalar bytes are never mistaken for structure
+		if len(x) >= 12 && x[0]>>5 == 5 {
 			var inner any
-			if err := walkDec.Unmarshal(x, &inner); err == nil {
+			if err := walkDec.Unmarshal(x, &inner); err == nil && textKeyedMap(inner) {
 				if re, err := walkEnc.Marshal(unbuild(build(inner))); err == nil && bytes.Equal(re, x) {
 					return &node{kind: "embedded", kids: []*node{build(inner)}}
 				}
@@ -85,6 +86,19 @@ func build(v any) *node {
 	default:
 		return &node{kind: "other", val: x}
 	}
+}
+
+func textKeyedMap(v any) bool {
+	m, ok := v.(map[any]any)
+	if !ok || len(m) == 0 {
+		return false
+	}
+	for k := range m {
+		if _, ok := k.(string); !ok {
+			return false
+		}
+	}
+	return true
 }
 
 func unbuild(n *node) any {
